@@ -199,20 +199,23 @@ def cyclic_nodes(n, edges):
     return out
 
 
-def var_graph_case(n, edges):
+def var_graph_case(n, edges, names=None):
+    """names: the variables' names - by default g0.., or names of built-in constants (an assignment of that name takes
+    precedence over the constant, so cycles through it are cycles)"""
+    names = names or ["g%d" % i for i in range(n)]
     p = base()
     p["assigns"] = []
     for i in range(n):
         e = Str("x")
         for (a, j) in edges:
             if a == i:
-                e = Concat(Var("g%d" % j), e)
-        p["assigns"].append(["g%d" % i, e])
-    p["recipes"][0]["body"] = [line("[T] ", Var("g0"))]
+                e = Concat(Var(names[j]), e)
+        p["assigns"].append([names[i], e])
+    p["recipes"][0]["body"] = [line("[T] ", Var(names[0]))]
     p["recipes"][0]["subs"] = []
     p["recipes"][0]["priors"] = []
     if has_cycle(n, edges):
-        return p, {"verdict": "reject", "kind": "circularVariable", "offender": ["g%d" % i for i in cyclic_nodes(n, edges)]}
+        return p, {"verdict": "reject", "kind": "circularVariable", "offender": [names[i] for i in cyclic_nodes(n, edges)]}
     return p, {"verdict": "accept"}
 
 
@@ -478,6 +481,9 @@ def run(report):
     for edges in digraphs(nv):
         p, exp = var_graph_case(nv, edges)
         cases.append((p, exp, "vargraph/%s" % edges))
+        for tag, names in (("const", ["HEX", "BOLD", "NORMAL"]), ("mixed", ["g0", "HEX", "g2"])):
+            p, exp = var_graph_case(nv, edges, names)
+            cases.append((p, exp, "vargraph-%s/%s" % (tag, edges)))
         p, exp = recipe_graph_case(nv, edges)
         cases.append((p, exp, "recipegraph/%s" % edges))
     if tier == "thorough":
